@@ -1,17 +1,20 @@
 /-
 C20 — Any text is either read or cleanly refused; tools never raise.
-Proved here (lexer side, any input, any environment):
-  * every repetition recogniser consumes input (the rest is strictly shorter whenever it matches) — the
-    termination argument of the regex loops `\d+`, `[A-Za-z0-9_:]+`, string bodies, triple-quoted bodies;
-  * the model raises no foreign Python exception from `int()`: an over-long integer literal is turned into
-    a positioned LexerError E005 by `step` (F30, fixed);
-  * with fuel ≥ 1 the fuel-bounded loop agrees with any larger fuel on inputs it finishes.
-Open proof targets (backed by the exhaustive/seeded correspondence on exception classes and by the
-oracle on the real code): `step` strictly shortens the input on every branch (needs the span
-well-formedness invariant of `normalize`), hence `loop (length+1)` never runs out of fuel; parser fuel
-sufficiency; linear step bound.
+Proved here (lexer side; every input text, every environment, both lexer modes):
+  * `C20_lexer_closed`: `tokenize` returns tokens or raises its own positioned LexerError — never a foreign Python
+    exception (the over-long integer literal, F30, is re-raised as LexerError E005) and never the model's
+    out-of-fuel marker;
+  * `C20_lexer_progress`: every iteration of the main loop on a non-empty remaining input strictly shortens it
+    (fence-span branch, indentation / inline-space branch, every token pattern, `+`, identifiers with annotation
+    tails, the `%` merge) — this IS the termination argument of the Python `while pos < len(content)` loop;
+  * `C20_lexer_no_hang`: with fuel = length + 1 the loop never runs out of fuel;
+  * `C20_fence_spans_wellformed`: the normaliser only produces non-empty fence spans (the invariant the
+    fence branch needs to make progress).
+Open proof targets (backed by the exhaustive/seeded correspondence on exception classes and by the oracle on the
+real code): parser fuel sufficiency and closedness; a linear bound on the number of steps (the quadratic
+rescans F31/F32 are fixed in the code; the model charges no cost).
 -/
-import Octave.Lemmas.ScanLength
+import Octave.Lemmas.LexerClosed
 import Octave.Model.ParserTop
 import Octave.Props.Facts
 namespace Octave.C20
@@ -40,5 +43,34 @@ example : (match Parser.parse Env.ascii ("K::".toList ++ List.replicate 120 '[' 
     | .error (.parser code _ _) => String.ofList code | _ => "") = "E_MAX_NESTING_EXCEEDED" := by decide +kernel
 example : (match Parser.parse Env.ascii "K::{x}".toList with
     | .error (.lexer code _ _) => String.ofList code | _ => "") = "E005" := by decide +kernel
+
+/-- **The lexer is closed.** -/
+theorem C20_lexer_closed (env : Env) (content : Str) (lenient : Bool) (e : Exc)
+    (h : tokenize env content lenient = .error e) : ∃ code l c, e = .lexer code l c :=
+  tokenize_closed env content lenient e h
+
+/-- **Scanner progress.** -/
+theorem C20_lexer_progress (env : Env) (lenient : Bool) (st st' : LState) (s s' : Str)
+    (hs : s ≠ []) (hok : SpansOK st.spans) (h : step env lenient st s = .ok (st', s')) :
+    s'.length < s.length ∧ SpansOK st'.spans :=
+  step_progress env lenient st st' s s' hs hok h
+
+/-- **No hang.** -/
+theorem C20_lexer_no_hang (env : Env) (lenient : Bool) (st : LState) (s : Str) (hok : SpansOK st.spans) :
+    loop env lenient (s.length + 1) st s ≠ .error .fuel :=
+  loop_never_out_of_fuel env lenient (s.length + 1) st s (Nat.lt_succ_self _) hok
+
+theorem C20_fence_spans_wellformed (env : Env) (content norm : Str) (spans : List Span)
+    (h : normalize env content = .ok (norm, spans)) : SpansOK spans :=
+  normalize_spans_ok env content norm spans h
+
+/-- every token pattern consumes at least one character. -/
+theorem C20_pattern_progress {env : Env} {z : Bool} {prev : Option Char} {s : Str} {m : Match}
+    (h : matchPattern env z prev s = .ok (some m)) : m.rest.length < s.length := matchPattern_rest_lt h
+
+/-- non-vacuity: `SpansOK` holds initially and for a real document with two zones. -/
+example : SpansOK ({} : LState).spans := fun _ h => by simp at h
+example : (match normalize Env.ascii "K::\n```\nx\n```\nL::\n````py\n```\n````\n".toList with
+    | .ok (_, spans) => spans.map (fun (sp : Span) => (sp.start, sp.stop)) | .error _ => []) = [(4, 13), (18, 33)] := by decide +kernel
 
 end Octave.C20
